@@ -87,7 +87,7 @@ def _protect_trailing_backslashes(wrapped: str, is_last: bool) -> str:
 
 # A bare URL or email address (GFM extended autolink) at the end of a line.
 _bare_autolink_at_end_re = re.compile(
-    r"(?:^|\s)(?:(?:https?://|ftp://|www\.)\S+|[\w.+-]+@[\w-]+(?:\.[\w-]+)+)$"
+    r"(?:^|[\s(*_~])(?:(?:https?://|ftp://|www\.)\S+|[\w.+-]+@[\w-]+(?:\.[\w-]+)+)$"
 )
 
 
